@@ -348,6 +348,19 @@ def canon_index(v):
     return ", ".join(one(x) for x in el)
 
 
+def _is_generator(fnode):
+    """Does the function itself (not a nested one) contain a yield?"""
+    todo = list(fnode.body)
+    while todo:
+        x = todo.pop()
+        if isinstance(x, (ast.Yield, ast.YieldFrom)):
+            return True
+        if isinstance(x, (ast.FunctionDef, ast.AsyncFunctionDef, ast.Lambda, ast.ClassDef)):
+            continue
+        todo.extend(ast.iter_child_nodes(x))
+    return False
+
+
 class _Return(Exception):
     def __init__(self, value):
         self.value = value
@@ -381,6 +394,7 @@ class Folder:
         self.trace = []  # symbolic applications in evaluation order
         self.steps = 0
         self.max_steps = max_steps
+        self.yield_stack = []
         self.fold_all_methods = False   # symbolic mode: also fold methods that write object state (set by rules that observe that state)
         self.func_stack = []   # repository functions being folded (innermost last): context for resolving helpers / module constants
         self._modconst = {}
@@ -1340,12 +1354,25 @@ class Folder:
             if nme not in env:
                 raise Refuse(f"missing arg {nme}")
         self.func_stack.append(fnode)
+        gen = _is_generator(fnode)
+        if gen:
+            # a generator function: folded eagerly into the list of what it yields; sound only when its body has no recorded effect
+            # (the interleaving of the body with its consumer is then unobservable)
+            self.yield_stack.append([])
+            mark = len(self.trace)
         try:
             self.block(fnode.body, env)
         except _Return as r:
-            return r.value
+            if not gen:
+                return r.value
         finally:
             self.func_stack.pop()
+            if gen:
+                ys = self.yield_stack.pop()
+        if gen:
+            if len(self.trace) != mark:
+                raise Refuse("generator with recorded effects")
+            return ys
         return None
 
     def block(self, body, env):
@@ -1430,6 +1457,15 @@ class Folder:
             return
         if isinstance(st, ast.Expr):
             if isinstance(st.value, ast.Constant):
+                return
+            if isinstance(st.value, ast.Yield) and self.yield_stack:
+                self.yield_stack[-1].append(self.ev(st.value.value, env) if st.value.value is not None else None)
+                return
+            if isinstance(st.value, ast.YieldFrom) and self.yield_stack:
+                it = self.ev(st.value.value, env)
+                if not isinstance(it, (list, tuple)):
+                    raise Refuse("yield from non-literal")
+                self.yield_stack[-1].extend(it)
                 return
             self.ev(st.value, env)
             return
